@@ -539,6 +539,10 @@ func (vlog *valueLog) createVlogFile() (*logFile, error) {
 	if err != z.NewFile && err != nil {
 		return nil, err
 	}
+	// Values are acknowledged after an msync of the file alone: make its directory entry durable.
+	if err := syncDir(vlog.dirPath); err != nil {
+		return nil, y.Wrapf(err, "createVlogFile")
+	}
 
 	vlog.filesLock.Lock()
 	vlog.filesMap[fid] = lf
